@@ -60,6 +60,9 @@ struct InputKey {
   SourceKey source{};
   std::vector<std::size_t> target_path{};
   bool rank_dependency{true};
+  // The receiving slot is PASSIVE (``passive(port)``): add_node removes it from
+  // the builder's active list, so it is part of the node's identity.
+  bool passive{false};
 
   bool operator==(const InputKey &) const noexcept = default;
 };
@@ -100,6 +103,7 @@ struct InstanceKeyHash {
         combine(h, std::hash<std::size_t>{}(p));
       }
       combine(h, std::hash<bool>{}(input.rank_dependency));
+      combine(h, std::hash<bool>{}(input.passive));
       combine(h, 0xA7A7A7A7ULL); // target-path separator
     }
     combine(h, key.scalars.has_value() ? key.scalars.hash() : std::size_t{0});
@@ -165,7 +169,8 @@ private:
 
 [[nodiscard]] InstanceKey make_key(std::type_index def, WiringNodeSchema schema,
                                    std::span<const WiringInputRef> inputs,
-                                   const Value &scalars) {
+                                   const Value &scalars,
+                                   bool passive_tags_apply) {
   InstanceKey key{def, schema, {}, scalars};
   key.inputs.reserve(inputs.size());
   for (std::size_t index = 0; index < inputs.size(); ++index) {
@@ -176,6 +181,8 @@ private:
                            ? std::vector<std::size_t>{index}
                            : input.target_path,
         .rank_dependency = input.rank_dependency,
+        .passive = passive_tags_apply &&
+                   input.source.arg_tag == WiringPortRef::ArgTag::Passive,
     });
   }
   return key;
@@ -1610,7 +1617,8 @@ WiringPortRef Wiring::add_node(std::type_index def, NodeBuilder builder,
   // (def, schema, inputs, scalars) genuinely is one shared subexpression.
   const bool interns = schema.output != nullptr;
 
-  InstanceKey key = make_key(def, schema, inputs, scalars);
+  // Passive tags were applied to this builder above: they enter the key.
+  InstanceKey key = make_key(def, schema, inputs, scalars, true);
   if (interns) {
     if (auto it = impl_->interned.find(key); it != impl_->interned.end()) {
       const WiringInstance *existing = it->second;
@@ -2324,7 +2332,9 @@ WiringPortRef Wiring::add_node(std::type_index def,
                                std::function<NodeBuilder()> make_builder) {
   auto add = [&]() -> WiringPortRef {
     const bool interns = schema.output != nullptr;
-    InstanceKey key = make_key(def, schema, inputs, scalars);
+    // The deferred-builder path never applies Passive tags to the builder,
+    // so they do not distinguish instances here.
+    InstanceKey key = make_key(def, schema, inputs, scalars, false);
     if (interns) {
       if (auto it = impl_->interned.find(key); it != impl_->interned.end()) {
         const WiringInstance *existing = it->second;
